@@ -211,6 +211,21 @@ def build_model(family):
     return exe, o + e
 
 
+def good_model(family):
+    """the extracted model as last built from a tree on which the property's proofs checked
+    (saved by `make setup` on the fresh tree and refreshed by every passing run)"""
+    p = os.path.join(BUILD, 'good', '%s_model' % family)
+    return p if os.path.exists(p) else None
+
+
+def save_good_model(family, exe):
+    d = os.path.join(BUILD, 'good')
+    os.makedirs(d, exist_ok=True)
+    tmp = os.path.join(d, '.%s_model.%d' % (family, os.getpid()))
+    shutil.copy2(exe, tmp)
+    os.replace(tmp, os.path.join(d, '%s_model' % family))
+
+
 # --------------------------------------------------------------------------------------
 # Implementation side
 # --------------------------------------------------------------------------------------
@@ -586,10 +601,15 @@ def run_check(chk, argv):
         cov['explanation'] = 'implementation/harness build failed'
         return finish()
     if model_exe is None:
-        p = write_replay(chk.id, 'model', dict(kind='model-build-failure', correspondence='%s model extraction' % chk.id,
-                                               theorem=pr.get('failed'), log=mlog[-4000:]))
-        # without an executable model only the property's own oracle can be run
-        proof_broken = proof_broken or 'model no longer builds'
+        # The model no longer builds from this tree (a translated input changed shape or a generated
+        # constant broke a definition).  Search with the model of the last tree whose proofs checked:
+        # it is the function the theorems are about, so an implementation that differs from it on an
+        # observable the property constrains has a failing input.
+        proof_broken = proof_broken or 'model no longer builds from this tree'
+        model_exe = good_model(chk.family)
+        cov['model_used'] = 'last good build (the current tree\'s model does not build)' if model_exe else 'none'
+    elif pr['ok'] and not forb:
+        save_good_model(chk.family, model_exe)
 
     ctx = dict(tier=tier, rng=rng, model_exe=model_exe, impl_exe=impl_exe, ev=ev, cov=cov)
 
